@@ -18,7 +18,6 @@ REPO = os.environ.get("VERIF_REPO", "/repo")
 COQ = os.path.join(VERIF, "coq")
 WORK = os.path.join(VERIF, "work")
 BIN = os.path.join(WORK, "bin")
-HARNESS = os.path.join(BIN, "harness")
 RUNNER = os.path.join(VERIF, "runner", "build", "runner")
 NCPU = os.cpu_count() or 4
 
@@ -183,7 +182,35 @@ def assumption_problems(assumptions):
 # ---------------------------------------------------------------------------
 # runner and harness
 
+def gen_extract():
+    """Extract/Extract.v and runner/entries.ml are generated from coq/*/entries.txt
+    (lines: `<Module path under LS> <entry name>`), so layers never edit a shared file."""
+    mods, names = [], []
+    for p in sorted(glob.glob(os.path.join(COQ, "*", "entries.txt"))):
+        for line in open(p):
+            f = line.split()
+            if len(f) == 2 and not line.startswith("#"):
+                if f[0] not in mods:
+                    mods.append(f[0])
+                names.append(f[1])
+    ex = ("(** GENERATED by lib/common.py from coq/*/entries.txt — do not edit.\n"
+          "    Only ExtrOcamlBasic is used: bool, option, unit, list, prod, sumbool, sumor map to the\n"
+          "    OCaml types and andb/orb are inlined; N, Z, positive and nat stay the Coq datatypes. *)\n"
+          "Require Coq.extraction.Extraction.\nRequire Import Coq.extraction.ExtrOcamlBasic.\n"
+          "From Coq Require Import ZArith NArith.\nFrom LS Require Import Base.Sx %s.\n\n"
+          "Extraction Language OCaml.\nExtraction \"model.ml\" sx_eqb Z.add Z.mul Z.opp Z.of_N\n  %s.\n"
+          % (" ".join(mods), " ".join(names)))
+    en = ("(* GENERATED: name -> extracted entry point; no logic *)\nopen Model\n"
+          "let table : (string * (sx -> sx)) list = [\n%s]\n"
+          % "".join('  ("%s", %s);\n' % (n, n) for n in names))
+    for path, txt in ((os.path.join(COQ, "Extract", "Extract.v"), ex),
+                      (os.path.join(VERIF, "runner", "entries.ml"), en)):
+        if not os.path.exists(path) or open(path).read() != txt:
+            open(path, "w").write(txt)
+
+
 def build_runner():
+    gen_extract()
     with Lock("runner"):
         src_mtime = max(os.path.getmtime(p) for p in
                         glob.glob(os.path.join(COQ, "**", "*.vo"), recursive=True) +
@@ -199,16 +226,27 @@ def build_runner():
 GOENV = {"GOFLAGS": "-mod=mod", "GOPROXY": "off", "CGO_ENABLED": "1"}
 
 
-def build_harness(tags="verif", out=None):
-    """go build of /verif/harness against /repo's *current working tree*."""
-    out = out or HARNESS
+def harness_bin(name):
+    return os.path.join(BIN, "h_" + name)
+
+
+def build_harness(name, tags="verif", out=None):
+    """go build of /verif/harness/cmd/<name> against /repo's *current working tree*."""
+    out = out or harness_bin(name)
     with Lock("harness"):
         os.makedirs(BIN, exist_ok=True)
         hdir = os.path.join(VERIF, "harness")
         shutil.copyfile(os.path.join(REPO, "go.sum"), os.path.join(hdir, "go.sum"))
         env = dict(GOENV)
         env.pop("GOSUMDB", None)
-        rc, o = sh(["go", "build", "-tags", tags, "-o", out, "."], cwd=hdir, timeout=1800, env=env)
+        cmd = ["go", "build", "-tags", tags, "-o", out]
+        if REPO != "/repo":
+            # checks run against another tree (mutation self-tests in a scratch worktree)
+            mod = open(os.path.join(hdir, "go.mod")).read().replace("=> /repo", "=> " + REPO)
+            open(os.path.join(hdir, "go.alt.mod"), "w").write(mod)
+            shutil.copyfile(os.path.join(REPO, "go.sum"), os.path.join(hdir, "go.alt.sum"))
+            cmd.append("-modfile=go.alt.mod")
+        rc, o = sh(cmd + ["./cmd/" + name], cwd=hdir, timeout=1800, env=env)
         if rc != 0 and "verif" in tags:
             # a renamed internal that a hook file refers to must not become an alarm:
             # report, the caller decides (black-box fallback is per property)
